@@ -116,9 +116,17 @@ func buildCtxFacts(w *World) (*ctxFacts, error) {
 	// a method that returns a changed clone of its receiver (enter a nested scope: clone, then
 	// update the clone) is itself a way of cloning, not a way of changing the receiver
 	if cf.clone != nil {
-		for fn := range cf.mutators {
+		for _, fn := range w.Funcs("parser") {
+			recv := fn.Signature.Recv()
+			if recv == nil || !types.Identical(recv.Type(), cf.ctxType) || fn == cf.clone {
+				continue
+			}
 			res := fn.Signature.Results()
 			if res.Len() != 1 || !types.Identical(res.At(0).Type(), cf.ctxType) {
+				continue
+			}
+			// (also a method that only removes from the clone: the context a function body starts with)
+			if !cf.mutators[fn] && len(cf.mutations(fn)) == 0 {
 				continue
 			}
 			onClone := func(o map[string]bool) bool {
@@ -532,6 +540,7 @@ func c07Strip(w *World, cf *ctxFacts, r *Result) {
 		}
 		found = true
 		var strip *ssa.Call
+		var stripAt ssa.Instruction
 		var firstAdd, bodyCall ssa.Instruction
 		for _, b := range fn.Blocks {
 			for _, ins := range b.Instrs {
@@ -545,6 +554,20 @@ func c07Strip(w *World, cf *ctxFacts, r *Result) {
 				}
 				if strings.HasPrefix(callee.String(), "maps.DeleteFunc") && strip == nil {
 					strip = c
+					stripAt = c
+				}
+				// the removal made by a method of the context that hands back a changed clone
+				if cf.cloneLike[callee] && strip == nil {
+					for _, cb := range callee.Blocks {
+						for _, ci := range cb.Instrs {
+							if cc, ok := ci.(*ssa.Call); ok && strip == nil {
+								if cal := cc.Call.StaticCallee(); cal != nil && strings.HasPrefix(cal.String(), "maps.DeleteFunc") {
+									strip = cc
+									stripAt = c
+								}
+							}
+						}
+					}
 				}
 				if cf.mutators[callee] && firstAdd == nil {
 					firstAdd = c
@@ -591,7 +614,7 @@ func c07Strip(w *World, cf *ctxFacts, r *Result) {
 			}
 			return a.Block().Dominates(b.Block()) && (a.Block() != b.Block() || instrIndex(a) < instrIndex(b))
 		}
-		if !before(strip, firstAdd) || !before(strip, bodyCall) {
+		if !before(stripAt, firstAdd) || !before(stripAt, bodyCall) {
 			order = false
 		}
 		switch {
@@ -3012,6 +3035,23 @@ func identOrigin(w *World, cf *ctxFacts, fn *ssa.Function, v ssa.Value, depth in
 		if c, ok := x.Tuple.(*ssa.Call); ok {
 			if callee := c.Call.StaticCallee(); callee != nil && cf.lookups[callee] {
 				return true, "the definition returned by " + callee.Name()
+			}
+			// a helper of the parser that hands back what a look-up returned (or nothing, with an error)
+			if callee := c.Call.StaticCallee(); callee != nil && callee.Blocks != nil && callee.Pkg == fn.Pkg {
+				n := 0
+				for _, b := range callee.Blocks {
+					ret, ok := b.Instrs[len(b.Instrs)-1].(*ssa.Return)
+					if !ok || x.Index >= len(ret.Results) {
+						continue
+					}
+					n++
+					if ok, why := identOrigin(w, cf, callee, ret.Results[x.Index], depth+1, seen); !ok {
+						return false, "returned by " + FuncName(callee) + ": " + why
+					}
+				}
+				if n > 0 {
+					return true, "the definition handed back by " + FuncName(callee) + " (every return: a look-up or nothing)"
+				}
 			}
 		}
 	case *ssa.Call:
